@@ -60,7 +60,7 @@ OK(e) == CASE e.what = "select_by_name" -> SelectByNameOK(e)
 IsPanic(e) == ("res" \in DOMAIN e /\ e.res[1] = "Panic") \/ ("st" \in DOMAIN e /\ e.st = "panic")
 Init == l = 1 /\ bad = <<>>
 Next == /\ l <= Len(Rec)
-        /\ LET e == Rec[l]  c == IF IsPanic(e) THEN 5 ELSE IF OK(e) THEN 0 ELSE 1 IN bad' = IF c = 0 THEN bad ELSE Append(bad, <<l, c>>)
+        /\ LET e == Rec[l]  c == IF IsPanic(e) THEN 5 ELSE IF OK(e) THEN 0 ELSE 1 IN bad' = IF c = 0 THEN bad ELSE (IF Len(bad) >= 5000 THEN bad ELSE Append(bad, <<l, c>>))
         /\ l' = l + 1
 Spec == Init /\ [][Next]_vars
 Done == l = Len(Rec) + 1
